@@ -202,6 +202,30 @@ def check_case(ctx, drv, case):
                                               obs["mult"]], [spec["flops"], spec["write"], spec["size"],
                                                              spec["mult"]])
     if fail is None:
+        # peak memory along each traversal, recomputed from the definition's sizes alone
+        size_of = {tuple(r["leaves"]): r["size"] for r in spec["rows"]}
+        internal = [r["leaves"] for r in spec["rows"] if len(r["leaves"]) > 1]
+        kids = {}
+
+        def walk(t):
+            if isinstance(t, int):
+                return [t]
+            a, b = walk(t[0]), walk(t[1])
+            kids[tuple(sorted(a + b))] = (tuple(sorted(a)), tuple(sorted(b)))
+            return a + b
+
+        walk(obs["bt"])
+        for pk in obs["peaks"]:
+            tot = sum(size_of[(i,)] for i in range(len(net.inputs)))
+            peak = tot
+            for k in pk["seq"]:
+                p_ = tuple(internal[k])
+                tot += size_of[p_]
+                peak = max(peak, tot)
+                tot -= size_of[kids[p_][0]] + size_of[kids[p_][1]]
+            if peak != pk["peak"]:
+                fail = ("peak:" + pk["order"], pk["peak"], peak)
+    if fail is None:
         bad, nprod = observed_shapes(tree, net, case)
         ctx.count("intermediates_observed", nprod)
         if bad:
